@@ -19,6 +19,11 @@ type unsupportedErr struct{ msg string }
 
 func (e unsupportedErr) Error() string { return e.msg }
 
+type hoist struct {
+	a, b, target int
+	name         string
+}
+
 type insertion struct {
 	off  int
 	text string
@@ -122,6 +127,8 @@ func instrumentFile(fset *token.FileSet, af *ast.File, src []byte, pkgVars map[s
 	tf := fset.File(af.Pos())
 	off := func(p token.Pos) int { return tf.Offset(p) }
 	var ins []insertion
+	var hoists []hoist
+	selectLabel := map[*ast.SelectStmt]int{}
 	points := 0
 	const call = "zzsimrt.Point(); "
 
@@ -359,6 +366,10 @@ func instrumentFile(fset *token.FileSet, af *ast.File, src []byte, pkgVars map[s
 				}
 				ins = append(ins, insertion{off(v.Call.Lparen), sep, 1})
 				points++
+			case *ast.LabeledStmt:
+				if sel, ok := v.Stmt.(*ast.SelectStmt); ok {
+					selectLabel[sel] = off(v.Pos())
+				}
 			case *ast.SelectStmt:
 				// a select with a default clause never blocks. A blocking one
 				// would park the client while it holds the baton, so it is
@@ -440,6 +451,55 @@ func instrumentFile(fset *token.FileSet, af *ast.File, src []byte, pkgVars map[s
 							return true
 						})
 					}
+					// Go evaluates the channel (and value) expressions of a select
+					// exactly once; the polling loop would evaluate them on every
+					// round (a `case <-time.After(d)` would never fire: each round
+					// arms a new timer). Expressions containing calls or receives
+					// are therefore evaluated into temporaries in front of the loop.
+					target := off(v.Pos())
+					if lp, ok := selectLabel[v]; ok {
+						target = lp
+					}
+					hasCall := func(e ast.Expr) bool {
+						found := false
+						ast.Inspect(e, func(x ast.Node) bool {
+							switch u := x.(type) {
+							case *ast.FuncLit:
+								return false
+							case *ast.CallExpr:
+								found = true
+							case *ast.UnaryExpr:
+								if u.Op == token.ARROW {
+									found = true
+								}
+							}
+							return !found
+						})
+						return found
+					}
+					for ci, cl := range v.Body.List {
+						cc := cl.(*ast.CommClause)
+						var exprs []ast.Expr
+						switch c := cc.Comm.(type) {
+						case *ast.SendStmt:
+							exprs = append(exprs, c.Chan, c.Value)
+						case *ast.ExprStmt:
+							if u, ok := c.X.(*ast.UnaryExpr); ok && u.Op == token.ARROW {
+								exprs = append(exprs, u.X)
+							}
+						case *ast.AssignStmt:
+							if len(c.Rhs) == 1 {
+								if u, ok := c.Rhs[0].(*ast.UnaryExpr); ok && u.Op == token.ARROW {
+									exprs = append(exprs, u.X)
+								}
+							}
+						}
+						for ei, e := range exprs {
+							if hasCall(e) {
+								hoists = append(hoists, hoist{off(e.Pos()), off(e.End()), target, fmt.Sprintf("zzsel%d_%d_%d", off(v.Pos()), ci, ei)})
+							}
+						}
+					}
 					ins = append(ins, insertion{off(v.Pos()), "for { ", 0})
 					if allLeave {
 						ins = append(ins, insertion{off(v.Body.Rbrace), "default: zzsimrt.Blocked(); ", 0})
@@ -516,6 +576,32 @@ func instrumentFile(fset *token.FileSet, af *ast.File, src []byte, pkgVars map[s
 		// original source are preserved (race reports and panics then point
 		// at real lines of /repo).
 		ins = append(ins, insertion{off(af.Name.End()), "; import zzsimrt \"" + rtImport + "\"", 0})
+	}
+	// hoisted select operands: move the (already rewritten) text of the
+	// expression in front of the loop
+	for _, h := range hoists {
+		var inner, rest []insertion
+		for _, in := range ins {
+			if in.off >= h.a && in.off+in.del <= h.b && in.off < h.b {
+				inner = append(inner, in)
+			} else {
+				rest = append(rest, in)
+			}
+		}
+		sort.SliceStable(inner, func(i, j int) bool { return inner[i].off < inner[j].off })
+		var text []byte
+		prev := h.a
+		for _, in := range inner {
+			if in.off < prev {
+				return 0, nil, fmt.Errorf("instrumenter: overlapping rewrites at offset %d", in.off)
+			}
+			text = append(text, src[prev:in.off]...)
+			prev = in.off + in.del
+			text = append(text, in.text...)
+		}
+		text = append(text, src[prev:h.b]...)
+		ins = append([]insertion{{h.target, h.name + " := " + strings.ReplaceAll(string(text), "\n", " ") + "; ", 0}}, rest...)
+		ins = append(ins, insertion{h.a, strings.Repeat("\n", strings.Count(string(src[h.a:h.b]), "\n")) + h.name, h.b - h.a})
 	}
 	sort.SliceStable(ins, func(i, j int) bool { return ins[i].off < ins[j].off })
 	var out []byte
